@@ -83,6 +83,14 @@ def run(chk):
                 sanitised = z is not None or U(s[1]).startswith("torch.isnan(")
         # the sanitiser must sit between the division and the cast
         pos_ok = sanitised and "div" in names and names.index("div") > max(i for i, s in enumerate(stages) if s[0] in ("nan_to_num", "where"))
+        # the divisor rewritten in place before the division (`scale[scale == 0] = 1`, `scale.clamp_(min=...)`, `scale.masked_fill_(...)`): a
+        # sanitiser of the divisor itself, which the stage vocabulary of this rule (quotient sanitisers) does not describe
+        rewrites = [ef for ef in p.effects if (ef[0] in ("substore", "augstore") and U(ef[1]) == scale) or
+                    (ef[0] == "expr" and isinstance(ef[1], ast.Call) and isinstance(ef[1].func, ast.Attribute) and ef[1].func.attr.endswith("_") and U(ef[1].func.value) == scale)]
+        if fp is not False and rewrites and not ((sanitised and pos_ok) or sources_bounded):
+            n += 1
+            chk.unknown("C16.R1", site, f"SymmetricQuantizer.forward [float8 path]: the divisor `{scale}` is rewritten in place before the division (`{U(rewrites[0][1])[:40]}`): whether a null scale survives is not decided")
+            continue
         if fp is not False:
             n += 1
             ok = (sanitised and pos_ok) or sources_bounded
